@@ -115,6 +115,7 @@ partial def deepCopy (id : Nat) : StateT (List (Nat × Nat)) M Nat := do
         (allocArr v : M Nat)
       | .vec _ => do
         let v ← (readVec id : M VecV)
+        let _ ← (liftR (VecV.ofArrs v.comps v.name) : M VecV)
         (allocVec v : M Nat)
       | .dg g => do
         let es ← g.entries.mapM fun (e : String × Nat) => do
@@ -169,25 +170,32 @@ def stepOp (j : Json) : M Json := do
     let inplace := (getBool? j "inplace").getD false
     let dst ← reqM (getNat? j "dst")
     let rv ← rhsValue rhs
-    let res ← match ← getObj aid, rv with
+    let vecIn (r : VRhs) : M (Sum Nat Err) := do
+      match ← vecInplace bop aid r with
+      | some e => pure (.inr e)
+      | none => pure (.inl aid)
+    let res : Sum Nat Err ← match ← getObj aid, rv with
       | .arr _, .inl r =>
-        if inplace then arrInplace bop aid r
+        if inplace then do pure (.inl (← arrInplace bop aid r))
         else do
           let l ← readArr aid
-          allocArr (← liftR (ArrV.binaryOp T bop l r))
+          pure (.inl (← allocArr (← liftR (ArrV.binaryOp T bop l r))))
       | .vec _, .inl r =>
-        if inplace then vecInplace bop aid (.arr r)
+        if inplace then vecIn (.arr r)
         else do
           let l ← readVec aid
-          allocVec (← liftR (l.binaryOp T bop (.arr r)))
+          pure (.inl (← allocVec (← liftR (l.binaryOp T bop (.arr r)))))
       | .vec _, .inr w =>
-        if inplace then vecInplace bop aid (.vec w)
+        if inplace then vecIn (.vec w)
         else do
           let l ← readVec aid
-          allocVec (← liftR (l.binaryOp T bop (.vec w)))
+          pure (.inl (← allocVec (← liftR (l.binaryOp T bop (.vec w)))))
       | _, _ => fail .badOp
-    bindVar dst res
-    pure okJson
+    match res with
+    | .inl id => do
+      bindVar dst id
+      pure okJson
+    | .inr e => pure (errJson e)     -- partial effect kept, nothing bound
   | "un" => do
     let uop ← reqM ((getStr? j "name").bind UnOp.fromString?)
     let aid ← getVar j "a"
@@ -258,7 +266,11 @@ def stepOp (j : Json) : M Json := do
     let deep := (getBool? j "deep").getD false
     match ← getObj aid with
     | .arr _ => do bindVar dst (← allocArr (← readArr aid))
-    | .vec _ => do bindVar dst (← allocVec (← readVec aid))
+    | .vec _ => do
+      -- `Vector(**{c: xyz.copy()})`: the constructor re-validates the components
+      let v ← readVec aid
+      let _ ← liftR (VecV.ofArrs v.comps v.name)
+      bindVar dst (← allocVec v)
     | .dg g =>
       if deep then do
         let (nid, _) ← (deepCopy aid).run []
